@@ -1,6 +1,7 @@
 package main
 
 import (
+	"os/exec"
 	"encoding/json"
 	"flag"
 	"fmt"
@@ -29,6 +30,28 @@ type concApp struct {
 	name  string
 	argvs [][]string
 	build func(out *[]string) *cli.Cli
+}
+
+// a user-supplied value type whose IsBoolFlag answer is a property of the value, not of the type
+type levelVal struct {
+	isFlag bool
+	v      *string
+}
+
+func (l *levelVal) Set(s string) error { *l.v = s; return nil }
+func (l *levelVal) String() string     { return *l.v }
+func (l *levelVal) IsBoolFlag() bool   { return l.isFlag }
+
+func levelApp(name string, isFlag bool) func(out *[]string) *cli.Cli {
+	return func(out *[]string) *cli.Cli {
+		app := cli.App(name, "")
+		app.Spec = "[-l] [X]"
+		lv := "unset"
+		app.Var(cli.VarOpt{Name: "l level", Value: &levelVal{isFlag, &lv}})
+		x := app.StringArg("X", "", "")
+		app.Action = func() { *out = append(*out, "ACT", show("l", lv), show("X", *x)) }
+		return app
+	}
 }
 
 func show(name string, v interface{}) string { return fmt.Sprintf("%s=%v", name, v) }
@@ -100,6 +123,22 @@ func concApps() []concApp {
 				app.Action = func() { *out = append(*out, "ACT", show("u", *u), show("l", *l), show("X", *x)) }
 				return app
 			}},
+		{"lvlflag", [][]string{{"-l", "high"}, {"-l"}, {"-l=true", "x"}, {"x"}}, levelApp("lvlflag", true)},
+		{"lvlval", [][]string{{"-l", "high"}, {"-l"}, {"-l=high", "x"}, {"-lhigh"}}, levelApp("lvlval", false)},
+		// an option and an argument at one level: two conversion errors in one invocation, an option and an argument bound to the
+		// same variable through the Ptr entry points (options are stored before arguments)
+		{"both", [][]string{{"-n", "few", "many"}, {"-n", "7", "many"}, {"-n", "7", "8"}, {"-s", "from-option", "9", "from-argument"}, {"9", "only-argument"}},
+			func(out *[]string) *cli.Cli {
+				app := cli.App("both", "")
+				app.Spec = "[-n] [-s] N [S]"
+				n := app.IntOpt("n num", 1, "")
+				m := app.IntArg("N", 2, "")
+				var shared string
+				app.StringPtr(&shared, cli.StringOpt{Name: "s str", Value: "opt-default"})
+				app.StringPtr(&shared, cli.StringArg{Name: "S", Value: "arg-default"})
+				app.Action = func() { *out = append(*out, "ACT", show("n", *n), show("N", *m), show("shared", shared)) }
+				return app
+			}},
 	}
 }
 
@@ -147,6 +186,27 @@ type concReport struct {
 }
 
 func init() {
+	// concone <case index>: one case alone in this process
+	standalone["concone"] = func(args []string) {
+		idx, _ := strconv.Atoi(args[0])
+		restoreS := cli.VerifSetStreams(ioutil.Discard, ioutil.Discard)
+		restoreE := cli.VerifSetExiter(func(code int) { panic(exitSentinel{code}) })
+		defer restoreS()
+		defer restoreE()
+		os.Setenv("VERIF_CONC_E", "from-env")
+		os.Setenv("VERIF_CONC_L", "5, 6")
+		os.Unsetenv("VERIF_CONC_U")
+		k := 0
+		for _, a := range concApps() {
+			for _, v := range a.argvs {
+				if k == idx {
+					fmt.Println("ONE " + concRun(a, v, false))
+					return
+				}
+				k++
+			}
+		}
+	}
 	// conc <rounds> <goroutines> <seed>
 	standalone["conc"] = func(args []string) {
 		rounds, _ := strconv.Atoi(args[0])
@@ -179,6 +239,17 @@ func init() {
 			rep.Sequential++
 		}
 		rep.Samples = append(rep.Samples, ref[1], ref[8], ref[13])
+		// 1b. every case alone in a process of its own: nothing an earlier application left behind in this process may matter
+		for i := range cases {
+			outb, err := exec.Command(os.Args[0], "concone", strconv.Itoa(i)).Output()
+			rep.Sequential++
+			got := strings.TrimSuffix(string(outb), "\n")
+			if err != nil || got != "ONE "+ref[i] {
+				if len(rep.Mismatches) < 20 {
+					rep.Mismatches = append(rep.Mismatches, fmt.Sprintf("fresh process: %s %v: got %q (%v), in the common process %q", cases[i].a.name, cases[i].argv, got, err, ref[i]))
+				}
+			}
+		}
 		mism := func(kind string, i int, got string) {
 			if len(rep.Mismatches) < 20 {
 				rep.Mismatches = append(rep.Mismatches, fmt.Sprintf("%s: %s %v: got %q, alone %q", kind, cases[i].a.name, cases[i].argv, got, ref[i]))
